@@ -72,6 +72,10 @@ type Exif struct {
 // ModifyDate return the exif modified date with subsec offset if present
 func (e Exif) ModifyDate() time.Time {
 	t := e.Time.modifyDate
+	if t.IsZero() {
+		// no date tag: the sub-second and offset tags qualify nothing
+		return t
+	}
 	if e.Time.subSecTime != 0 {
 		t = t.Add(time.Duration(e.Time.subSecTime) * time.Millisecond)
 	}
@@ -86,6 +90,10 @@ func (e Exif) ModifyDate() time.Time {
 // DateTimeOriginal returns the exif Original DateTime with subsec offset if present
 func (e Exif) DateTimeOriginal() time.Time {
 	t := e.Time.dateTimeOriginal
+	if t.IsZero() {
+		// no date tag: the sub-second and offset tags qualify nothing
+		return t
+	}
 	if e.Time.subSecTimeOriginal != 0 {
 		t = t.Add(time.Duration(e.Time.subSecTimeOriginal) * time.Millisecond)
 	}
@@ -100,6 +108,10 @@ func (e Exif) DateTimeOriginal() time.Time {
 // CreateDate reurns the CreateDate with subsec offset if present
 func (e Exif) CreateDate() time.Time {
 	t := e.Time.createDate
+	if t.IsZero() {
+		// no date tag: the sub-second and offset tags qualify nothing
+		return t
+	}
 	if e.Time.subSecTimeDigitized != 0 {
 		t = t.Add(time.Duration(e.Time.subSecTimeDigitized) * time.Millisecond)
 	}
